@@ -848,7 +848,14 @@ def joinLine (st : JState) (line : String) : JState × List String :=
       match parseOp lt with
       | none => bad st "unparsable op"
       | some o =>
-        let impl := toks r
+        let impl0 := toks r
+        -- `!count=<n>`: `par_join().count()` disagreed with the number of items the same join delivered
+        let badCount := impl0.filter (·.startsWith "!count=")
+        let impl := impl0.filter (fun t => !t.startsWith "!count=")
+        let (st, outC) :=
+          if badCount.isEmpty || st.monDead then (st, []) else
+          ({ st with mons := st.mons + 1 },
+           [s!"MON C07 case={st.caseId} line={st.lineNo} par_join().count() disagrees with the number of items the parallel join delivers ({badCount}) op=[{l.take 200}]"])
         let st := { st with modes := bump st.modes o.mode, arities := bump st.arities o.ms.length }
         if impl == ["nohook"] then ({ st with skippedNoHook := st.skippedNoHook + 1 }, []) else
         -- 1. model vs implementation
@@ -892,7 +899,7 @@ def joinLine (st : JState) (line : String) : JState × List String :=
           | some (prop, why) =>
             ({ st with monDead := true, mons := st.mons + 1 },
              [s!"MON {prop} case={st.caseId} line={st.lineNo} {why} op=[{l}]"])
-        (st, out1 ++ out2)
+        (st, outC ++ out1 ++ out2)
 
 partial def joinLoop (h : IO.FS.Stream) (st : JState) : IO JState := do
   let line ← h.getLine
